@@ -264,7 +264,9 @@ func GetAttr(v Value, attr Value, args ...Value) (Value, error) {
 		}
 	case reflect.Map:
 		key, ok := convertArg(attr, r.Type().Key())
-		if !ok {
+		// A slice, map or function can never be a key: looking one up in a map
+		// with an interface key type would panic ("hash of unhashable type").
+		if !ok || !key.Type().Comparable() {
 			return nil, fmt.Errorf("getattr: cannot use \"%v\" as key of \"%v\"", attr, v)
 		}
 		retval = r.MapIndex(key)
